@@ -76,11 +76,14 @@ def fire (s : St) (d : Nat) : St :=
   if s.lastCur = 0 then { s with pending := none, prev := 0 }
   else notify { s with pending := none, prev := s.lastCur } now
 
-/-- The loop with the trailing-edge timer. -/
-def stepFix (s0 : St) (e : Ev) : St :=
-  let s := match s0.pending with
-    | some d => if d ≤ e.t then fire s0 d else s0
-    | none => s0
+/-- a timer whose deadline has passed fires before an event delivered at `t` is handled -/
+def preFire (s : St) (t : Nat) : St :=
+  match s.pending with
+  | some d => if d ≤ t then fire s d else s
+  | none => s
+
+/-- the `Events` arm of the loop with the trailing-edge timer -/
+def handleFix (s : St) (e : Ev) : St :=
   let now := max e.t s.free
   if e.cur = 0 then { s with prev := 0, lastCur := 0 }
   else if relevant s.prev e then
@@ -91,6 +94,9 @@ def stepFix (s0 : St) (e : Ev) : St :=
                  | none => s.lastCalled.map (· + minInterval) }
     else notify { s with prev := e.cur, lastCur := e.cur, pending := none } now
   else { s with lastCur := e.cur }
+
+/-- The loop with the trailing-edge timer. -/
+def stepFix (s : St) (e : Ev) : St := handleFix (preFire s e.t) e
 
 /-- after the last event time passes: a pending timer fires -/
 def finish (s : St) : St :=
@@ -119,6 +125,12 @@ def finalCur : Nat → List Ev → Nat
 def sortedFrom : Nat → List Ev → Bool
   | _, [] => true
   | t, e :: es => t ≤ e.t && sortedFrom e.t es
+
+/-- consecutive events are more than `minInterval + additionalWait` apart -/
+def spacedFrom : Option Nat → List Ev → Bool
+  | _, [] => true
+  | none, e :: es => spacedFrom (some e.t) es
+  | some t, e :: es => t + minInterval + additionalWait ≤ e.t && spacedFrom (some e.t) es
 
 /-- every change is followed by a signal (so the consumer's last load sees the final content) -/
 def allReported (changes signals : List Nat) : Bool := changes.all fun c => signals.any fun g => c ≤ g
